@@ -1,6 +1,6 @@
 (* C16 — no hidden reallocation: addresses are stable until capacity is exceeded. *)
 From Coq Require Import ZArith List Bool.
-From Cntgs Require Import Base Layout Mem Vector World Spec Rep StableThm Refine NtLedger Refine NtRefine LifeHist AddrStable.
+From Cntgs Require Import Base Layout Mem Vector World Spec Rep StableThm Refine NtLedger Refine NtRefine LifeHist AddrStable EmplacePos.
 Import ListNotations.
 Local Open Scope Z_scope.
 
@@ -115,3 +115,13 @@ Proof.
   exact (common_prefix_same_addresses L _ _ offs _ _ offs' n k R R' Hp Hk Hl Hl').
 Qed.
 Print Assumptions C16_addresses_stable_along_histories.
+
+(* emplace(position, args...) within capacity (the model of it: lists without VaryingSize
+   parameter, trivially relocatable types): no allocator event, same block, same capacity;
+   the elements in front of the position keep their addresses because the addresses of a list
+   without VaryingSize parameter are stride * index (C16_addresses_are_a_function_of_the_content) *)
+Theorem C16_emplace_position_no_allocation : forall L v i t,
+  no_alloc (snd (emplace_pos L v i t)) /\ v_bid (fst (emplace_pos L v i t)) = v_bid v /\
+  v_cap (fst (emplace_pos L v i t)) = v_cap v.
+Proof. exact emplace_pos_no_alloc. Qed.
+Print Assumptions C16_emplace_position_no_allocation.
